@@ -31,6 +31,8 @@ pub enum Who {
 }
 
 pub struct World {
+    /// "<worker>:<batch>" under the run's seed (see `replay_target`)
+    pub id: String,
     pub sim: Sim,
     pub persons: Vec<(String, Uuid)>,
     /// our groups: uuid -> (account members, nested group members)
@@ -218,6 +220,7 @@ pub async fn build_world(rng: &mut Rng, start: u64, n_clients: usize) -> Result<
         sim.set_password(*u, &password_for(i as u64)).await?;
     }
     let mut world = World {
+        id: String::new(),
         sim,
         persons,
         groups,
@@ -820,7 +823,7 @@ fn report(acc: &mut Acc, w: &World, m: &ReqMeta, stage: &str, bad: Vec<(String, 
         acc.violation(
             &sig,
             json!({
-                "stage": stage, "outcome": outcome, "why": why,
+                "stage": stage, "outcome": outcome, "why": why, "history": w.id,
                 "request": m.raw, "who": format!("{:?}", m.who), "mutations": m.mutations,
                 "client": cfgj,
                 "memberof_model": w.acct_of(m.who).map(|a| w.memberof(a).iter().map(|u| u.to_string()).collect::<Vec<_>>()),
@@ -1029,7 +1032,8 @@ async fn membership_change(acc: &mut Acc, rng: &mut Rng, w: &mut World) {
     }
 }
 
-pub fn run(args: Args) {
+pub fn run(mut args: Args) {
+    let only = replay_target(&mut args);
     let mut run = Run::new(
         args.clone(),
         "exploration",
@@ -1048,6 +1052,10 @@ pub fn run(args: Args) {
         let mut acc = Acc::new();
         let rt = kvcore::srv::rt();
         for b in 0..batches {
+            let id = format!("{w}:{b}");
+            if only.as_ref().map(|o| *o != id).unwrap_or(false) {
+                continue;
+            }
             let mut rng = Rng::new(kvcore::rng::mix(seed, w as u64, 3800 + b));
             let start = kvcore::srv::T0.as_secs() + rng.below(1_000_000);
             let res = run_case(|| {
@@ -1059,6 +1067,7 @@ pub fn run(args: Args) {
                             return;
                         }
                     };
+                    world.id = id.clone();
                     acc.count_n("clients_created", world.clients.len() as u64);
                     for c in &world.clients {
                         acc.observe(
@@ -1108,7 +1117,13 @@ pub fn run(args: Args) {
         (a.get("membership_changes") > 0, "no membership change happened".into()),
     ];
     for (ok, why) in checks {
-        run.require(ok, &why);
+        // a replay of one history is judged by its oracle alone
+        if only.is_none() {
+            run.require(ok, &why);
+        }
+    }
+    if let Some(o) = &only {
+        run.extra("replay_of_history", json!(o));
     }
     run.finish();
 }
